@@ -8,6 +8,8 @@
 (*   Wh  projection of read_csv(file written by the harness in the         *)
 (*       documented layout), Wb the same file with a byte-order mark       *)
 (*   fix the second and third generation files are byte-identical          *)
+(*   We  projection of the re-read WBS after the harness edited hierarchy  *)
+(*       and dependencies; W3 projection of read_csv(write_csv(edited))    *)
 (***************************************************************************)
 EXTENDS CsvIO, Json, IOUtils, TLCExt
 
@@ -40,6 +42,7 @@ Judge(e) ==
          /\ Report(Equiv(e.Wh, e.W), e, "C13.handwritten", 0)
          /\ Report(Equiv(e.Wb, e.W), e, "C13.bom", 0)
          /\ Report(e.fix, e, "C13.fixpoint", 0)
+         /\ Report(Equiv(e.W3, e.We), e, "C13.history", 0)     \* read, edit, write, read: the edits survive
 
 Init == k = 1
 Next == /\ k <= Len(Batch)
